@@ -62,8 +62,11 @@ def gen_plan(seed, tier):
   ts = tuple_size(name)
 
   def idx_spec():
-    return dict(seed=r.randrange(10**6), dtype=r.choice(INT_DTYPES + ["list"]),
-                repeats=r.random() < 0.5, m=r.randint(2, 9))
+    sp = dict(seed=r.randrange(10**6), dtype=r.choice(INT_DTYPES + ["list"]),
+              repeats=r.random() < 0.5, m=r.randint(1, 9))
+    if r.random() < 0.35:
+      sp["pattern"] = r.choice(["sorted", "sorted_gap", "sorted_gap", "const", "arange", "reversed"])
+    return sp
 
   def maybe_fault():
     if fault_run and r.random() < 0.6:
@@ -76,9 +79,16 @@ def gen_plan(seed, tier):
   while len(ops) < n_ops:
     k = r.random()
     form = "formed" if r.random() < 0.2 else "indices"
-    if k < 0.2:
+    if k < 0.07 and pre != "store":
+      # replace the preprocessor by another array and refit: the new one must be used
+      ops.append(dict(op="swap_pre", seed=r.randrange(10**6), kind=r.choice(["ndarray", "list"])))
       ops.append(dict(op="fit", idx=dict(seed=r.randrange(10**6), dtype=r.choice(INT_DTYPES),
-                                         repeats=r.random() < 0.15, order=r.random() < 0.7),
+                                         repeats=False, order=r.random() < 0.7),
+                      form="indices", fault=None))
+    elif k < 0.2:
+      ops.append(dict(op="fit", idx=dict(seed=r.randrange(10**6), dtype=r.choice(INT_DTYPES),
+                                         repeats=r.random() < 0.15, order=r.random() < 0.7,
+                                         gap=r.random() < 0.2),
                       form=form, fault=maybe_fault()))
     elif k < 0.3 and name in PAIRS:
       ops.append(dict(op="calibrate", idx=idx_spec(), cp=gen_cp(r), form=form,
@@ -111,6 +121,11 @@ def _fit_indices(name, D, spec):
     if spec.get("repeats"):
       extra = idx[rs.randint(0, len(idx), size=max(1, len(idx) // 5))]
       idx = np.concatenate([idx, extra])
+    if spec.get("gap") and len(idx) >= 4:
+      # sorted, one repeated neighbour, span == length (looks like a contiguous range)
+      idx = np.sort(idx)
+      k_ = int(rs.randint(1, len(idx) - 1))
+      idx[k_] = idx[k_ - 1]
     ind = _cast(idx, spec["dtype"])
     formed = D.S[idx]
     if kind == "X":
@@ -154,6 +169,20 @@ def _query_indices(name, method, D, spec):
   if spec.get("repeats") and m >= 3:
     idx[1] = idx[0]
     idx[2, :] = idx[2, 0]
+  pat = spec.get("pattern")
+  if pat == "sorted":
+    idx = np.sort(idx, axis=0)
+  elif pat == "reversed":
+    idx = np.sort(idx, axis=0)[::-1].copy()
+  elif pat == "const":
+    idx[:] = idx[0]
+  elif pat in ("arange", "sorted_gap") and m <= D.N:
+    for j in range(t):
+      a0 = int(rs.randint(0, D.N - m + 1))
+      idx[:, j] = np.arange(a0, a0 + m)
+      if pat == "sorted_gap" and m >= 3:
+        k_ = int(rs.randint(1, m - 1))
+        idx[k_, j] = idx[k_ - 1, j]     # sorted, a repeat, span == length
   if t == 1:
     idx = idx[:, 0]
   ind = _cast(idx, spec["dtype"])
@@ -231,6 +260,20 @@ def run_plan(plan):
   try:
     for i, op in enumerate(plan["ops"]):
       kind = op["op"]
+      if kind == "swap_pre":
+        if store is not None:
+          continue
+        rsw = np_stream(op["seed"], "swap")
+        S2 = D.S * rsw.uniform(0.5, 2.0, size=D.d) + rsw.randn(D.d)
+        D.S = np.ascontiguousarray(S2)
+        newpre = D.S.copy() if op["kind"] == "ndarray" else D.S.tolist()
+        with world.observed():
+          A.set_params(preprocessor=newpre)
+        a_defined = False
+        events.append(dict(i=i, op="swap_pre", kind=op["kind"]))
+        cov["preprocessor_swaps"] += 1
+        shape.append("swap")
+        continue
       ev = dict(i=i, op=kind, form=op["form"])
       if kind == "fit":
         ai, bf = _fit_indices(name, D, op["idx"])
@@ -366,11 +409,13 @@ def shrink_moves(plan, violation):
       del p["ops"][i]
       yield p
   for i, o in enumerate(ops):
+    if "idx" not in o:
+      continue
     if o.get("fault"):
       p = copy.deepcopy(plan)
       p["ops"][i]["fault"] = None
       yield p
-    for k in ("repeats", "order"):
+    for k in ("repeats", "order", "gap", "pattern"):
       if o["idx"].get(k):
         p = copy.deepcopy(plan)
         p["ops"][i]["idx"][k] = False
